@@ -958,7 +958,7 @@ Section Roundtrip.
          [ unfold r_equal; fold r_equal; rewrite Ht; simpl; exact I | ]);
         destruct (wf_tag _ Hb) as (kb & Hkb & Htb);
         unfold r_equal; fold r_equal; rewrite Ht, Htb;
-          (destruct (Z.eqb_spec (kind_tag T _) (kind_tag T kb)) as [E|E]; [ | simpl; exact I ]);
+          (match goal with |- context [(?x =? ?y)%Z] => destruct (Z.eqb_spec x y) as [E|E] end; [ | simpl; exact I ]);
           apply kind_tag_inj in E; subst kb; cbn [negb]; rewrite dispatch_kind_tag;
             try (simpl; exact I).
     - (* array *)
@@ -999,3 +999,195 @@ Section Roundtrip.
     - apply wf_equal; auto.
   Qed.
 End Roundtrip.
+
+(* ------------------------------------------------------------------ C09: heap graphs *)
+Section Graph.
+  Variable T : json_tags.
+  Variable h : heap.
+  Let n := length (wrappers h).
+
+  Definition inv (save : list nat) : Prop := NoDup save /\ forall x, In x save -> x < n.
+
+  Lemma inv_len : forall save, inv save -> length save <= n.
+  Proof.
+    intros save [Hnd Hb]. unfold n in *.
+    rewrite <- (seq_length (length (wrappers h)) 0).
+    apply NoDup_incl_length; auto.
+    intros x Hx. apply in_seq. specialize (Hb x Hx). lia.
+  Qed.
+
+  Lemma mem_nat_false : forall x l, mem_nat x l = false -> ~ In x l.
+  Proof.
+    unfold mem_nat. intros x l H Hin.
+    assert (existsb (Nat.eqb x) l = true) by (apply existsb_exists; exists x; split; auto; apply Nat.eqb_refl).
+    congruence.
+  Qed.
+
+  Lemma del_nat_cons : forall w save, ~ In w save -> del_nat w (w :: save) = save.
+  Proof.
+    intros w save Hn. unfold del_nat. simpl. rewrite Nat.eqb_refl. simpl.
+    induction save as [|x r IH]; simpl; auto.
+    destruct (Nat.eqb_spec w x).
+    - subst. exfalso. apply Hn. left; reflexivity.
+    - simpl. rewrite IH; auto. intros Hin. apply Hn. right; auto.
+  Qed.
+
+  Lemma inv_cons : forall w save, inv save -> w < n -> ~ In w save -> inv (w :: save).
+  Proof.
+    intros w save [Hnd Hb] Hw Hn. split.
+    - constructor; auto.
+    - intros x [<- | Hx]; auto.
+  Qed.
+
+  (* what a successful call guarantees about the part of the graph below w *)
+  Definition below_ok (save : list nat) (w : nat) : Prop :=
+    forall x, reach h w x -> (children h x <> [] -> ~ In x save) /\ ~ on_cycle h x.
+
+  Definition rec_spec (f : nat) (rec : list nat -> nat -> gres * list nat) : Prop :=
+    forall save w, inv save -> n < f + length save ->
+      fst (rec save w) <> GFuel /\
+      (forall j, fst (rec save w) = GOk j -> snd (rec save w) = save /\ below_ok save w).
+
+  Lemma g_items_spec : forall f rec, rec_spec f rec ->
+    forall l save, inv save -> n < f + length save ->
+      fst (g_items rec l save) <> LFuel /\
+      (forall js, fst (g_items rec l save) = LOk js ->
+                  snd (g_items rec l save) = save /\ forall c, In c l -> below_ok save c).
+  Proof.
+    intros f rec Hrec. induction l as [|x r IH]; intros save Hi Hb; simpl.
+    - split; [discriminate|]. intros js _. split; [reflexivity|]. intros c [].
+    - destruct (Hrec save x Hi Hb) as [H1 H2].
+      destruct (rec save x) as [res s1] eqn:E. simpl in H1, H2.
+      destruct res as [j| |]; simpl; try (split; [discriminate | intros; discriminate]).
+      + destruct (H2 j eq_refl) as [Hs Hq]. subst s1.
+        destruct (IH save Hi Hb) as [H3 H4].
+        destruct (g_items rec r save) as [lr s2] eqn:E2. simpl in H3, H4.
+        destruct lr as [js| |]; simpl.
+        * split; [discriminate|]. intros js' _. destruct (H4 js eq_refl) as [Hs2 Hq2].
+          split; auto. intros c [<- | Hc]; auto.
+        * split; [discriminate | intros; discriminate].
+        * exfalso. apply H3. reflexivity.
+      + exfalso. apply H1. reflexivity.
+  Qed.
+
+  Lemma g_entries_spec : forall f rec, rec_spec f rec ->
+    forall l save, inv save -> n < f + length save ->
+      fst (g_entries rec l save) <> LFuel /\
+      (forall js, fst (g_entries rec l save) = LOk js ->
+                  snd (g_entries rec l save) = save /\ forall c, In c (map snd l) -> below_ok save c).
+  Proof.
+    intros f rec Hrec. induction l as [|[k x] r IH]; intros save Hi Hb; simpl.
+    - split; [discriminate|]. intros js _. split; [reflexivity|]. intros c [].
+    - destruct (Hrec save x Hi Hb) as [H1 H2].
+      destruct (rec save x) as [res s1] eqn:E. simpl in H1, H2.
+      destruct res as [j| |]; simpl; try (split; [discriminate | intros; discriminate]).
+      + destruct (H2 j eq_refl) as [Hs Hq]. subst s1.
+        destruct (IH save Hi Hb) as [H3 H4].
+        destruct (g_entries rec r save) as [lr s2] eqn:E2. simpl in H3, H4.
+        destruct lr as [js| |]; simpl.
+        * split; [discriminate|]. intros js' _. destruct (H4 js eq_refl) as [Hs2 Hq2].
+          split; auto. intros c [<- | Hc]; auto.
+        * split; [discriminate | intros; discriminate].
+        * exfalso. apply H3. reflexivity.
+      + exfalso. apply H1. reflexivity.
+  Qed.
+
+  Lemma leaf_below : forall save w, children h w = [] -> below_ok save w.
+  Proof.
+    intros save w Hc x Hr. inversion Hr; subst.
+    - split; [intros Hne; congruence|]. intros (c & Hin & _). rewrite Hc in Hin. inversion Hin.
+    - rewrite Hc in H. inversion H.
+  Qed.
+
+  (* a container whose children were all serialised below (w :: save) *)
+  Lemma container_below : forall save w,
+    ~ In w save ->
+    (forall c, In c (children h w) -> below_ok (w :: save) c) ->
+    below_ok save w.
+  Proof.
+    intros save w Hn Hch x Hr. inversion Hr; subst.
+    - split; [intros _; exact Hn|].
+      intros (c & Hin & Hrc). destruct (Hch c Hin w Hrc) as [Hns _].
+      apply Hns; [|left; reflexivity].
+      intros E. rewrite E in Hin. inversion Hin.
+    - destruct (Hch c H x H0) as [Hns Hcy]. split; auto.
+      intros Hne Hin. apply (Hns Hne). right; auto.
+  Qed.
+
+  Lemma graph_spec : forall fuel, rec_spec fuel (to_json_graph T h fuel).
+  Proof.
+    induction fuel as [|f IH]; intros save w Hi Hb.
+    - exfalso. pose proof (inv_len save Hi). simpl in Hb. lia.
+    - simpl. destruct (nth_error (wrappers h) w) as [c|] eqn:Ew.
+      2:{ simpl. split; [discriminate | intros; discriminate]. }
+      assert (Hwn : w < n) by (unfold n; apply nth_error_Some; congruence).
+      assert (Hleaf : forall (P : Prop), children h w = [] ->
+                 forall j, (GOk j <> GFuel) /\ (forall j', GOk j = GOk j' -> save = save /\ below_ok save w)).
+      { intros _ Hc j. split; [discriminate|]. intros j' _. split; auto. apply leaf_below; auto. }
+      destruct c as [z|b|s| |p|p|e [p|]|nm ps e|nm|nm]; simpl;
+        try (apply (Hleaf True); unfold children; rewrite Ew; reflexivity).
+      + (* float *)
+        destruct (f_finite b); simpl.
+        * apply (Hleaf True). unfold children. rewrite Ew. reflexivity.
+        * split; [discriminate | intros; discriminate].
+      + (* array *)
+        destruct (mem_nat w save) eqn:Em; simpl; [split; [discriminate | intros; discriminate]|].
+        apply mem_nat_false in Em.
+        assert (Hi' : inv (w :: save)) by (apply inv_cons; auto).
+        assert (Hb' : n < f + length (w :: save)) by (simpl; lia).
+        destruct (g_items_spec f _ IH (plist h p) (w :: save) Hi' Hb') as [H1 H2].
+        destruct (g_items (to_json_graph T h f) (plist h p) (w :: save)) as [lr s1]. simpl in H1, H2.
+        destruct lr as [js| |]; simpl.
+        * split; [discriminate|]. intros j _. destruct (H2 js eq_refl) as [-> Hq].
+          split; [apply del_nat_cons; auto|].
+          apply container_below; auto. unfold children. rewrite Ew. exact Hq.
+        * split; [discriminate | intros; discriminate].
+        * exfalso. apply H1. reflexivity.
+      + (* dict *)
+        destruct (mem_nat w save) eqn:Em; simpl; [split; [discriminate | intros; discriminate]|].
+        apply mem_nat_false in Em.
+        assert (Hi' : inv (w :: save)) by (apply inv_cons; auto).
+        assert (Hb' : n < f + length (w :: save)) by (simpl; lia).
+        destruct (g_entries_spec f _ IH (pmap h p) (w :: save) Hi' Hb') as [H1 H2].
+        destruct (g_entries (to_json_graph T h f) (pmap h p) (w :: save)) as [lr s1]. simpl in H1, H2.
+        destruct lr as [js| |]; simpl.
+        * split; [discriminate|]. intros j _. destruct (H2 js eq_refl) as [-> Hq].
+          split; [apply del_nat_cons; auto|].
+          apply container_below; auto. unfold children. rewrite Ew. exact Hq.
+        * split; [discriminate | intros; discriminate].
+        * exfalso. apply H1. reflexivity.
+      + (* computed with attributes *)
+        destruct (mem_nat w save) eqn:Em; simpl; [split; [discriminate | intros; discriminate]|].
+        apply mem_nat_false in Em.
+        assert (Hi' : inv (w :: save)) by (apply inv_cons; auto).
+        assert (Hb' : n < f + length (w :: save)) by (simpl; lia).
+        destruct (g_entries_spec f _ IH (pmap h p) (w :: save) Hi' Hb') as [H1 H2].
+        destruct (g_entries (to_json_graph T h f) (pmap h p) (w :: save)) as [lr s1]. simpl in H1, H2.
+        destruct lr as [js| |]; simpl.
+        * split; [discriminate|]. intros j _. destruct (H2 js eq_refl) as [-> Hq].
+          split; [apply del_nat_cons; auto|].
+          apply container_below; auto. unfold children. rewrite Ew. exact Hq.
+        * split; [discriminate | intros; discriminate].
+        * exfalso. apply H1. reflexivity.
+  Qed.
+
+  Lemma inv_nil : inv [].
+  Proof. split; [constructor | intros x []]. Qed.
+
+  (* ToJSON terminates within (number of wrappers + 1) nested calls, whatever the heap *)
+  Theorem to_json_terminates : forall w, to_json_graph_top T h w <> GFuel.
+  Proof.
+    intros w. unfold to_json_graph_top.
+    destruct (graph_spec (S n) [] w inv_nil) as [H _]; [simpl; lia | exact H].
+  Qed.
+
+  (* a cycle (through an array, a dict or computed attributes) anywhere below w is an error *)
+  Theorem cycle_is_error : forall w x, reach h w x -> on_cycle h x -> to_json_graph_top T h w = GErr.
+  Proof.
+    intros w x Hr Hc. pose proof (to_json_terminates w) as Ht. unfold to_json_graph_top in *.
+    destruct (graph_spec (S n) [] w inv_nil) as [_ H]; [simpl; lia|].
+    fold n in Ht. destruct (fst (to_json_graph T h (S n) [] w)) as [j| |] eqn:E; auto.
+    - destruct (H j eq_refl) as [_ Hq]. destruct (Hq x Hr) as [_ Hnc]. contradiction.
+    - congruence.
+  Qed.
+End Graph.
